@@ -245,11 +245,11 @@ def fam_pyobj(tier):
                 yield {'kind': 'pyobj', 'a': a, 'b': b, 'opt': [ds, 'on']}
 
 
-def families(tier):
+def families(tier, docs_budget=None):
     """(name, generator) in a fixed order."""
     q = tier == 'quick'
     return [
-        ('docs', fam_docs(5 if q else 6)),
+        ('docs', fam_docs(docs_budget or (5 if q else 6))),
         ('lists_leaf', fam_lists(4 if q else 5, (1, 2))),
         ('lists_nested', fam_lists(3 if q else 4, ([1], [2]))),
         ('lists_mixed', fam_lists(3 if q else 4, (1, [1], None))),
@@ -264,17 +264,17 @@ def families(tier):
     ]
 
 
-def all_cases(tier):
+def all_cases(tier, docs_budget=None):
     idx = 0
-    for name, gen in families(tier):
+    for name, gen in families(tier, docs_budget):
         for case in gen:
             case['fam'] = name
             yield idx, case
             idx += 1
 
 
-def shard_cases(tier, i, n):
-    for idx, case in all_cases(tier):
+def shard_cases(tier, i, n, docs_budget=None):
+    for idx, case in all_cases(tier, docs_budget):
         if idx % n == i:
             yield idx, case
 
